@@ -222,7 +222,19 @@ def run(rep, facts):
             return {k: v for k, v in out.items() if v}
         if canon(total) != canon(cnt):
             badw.append("returned count differs from prefix bytes + name.len() + value.len()")
-    if badw:
+    if (badw or not full) and any("Iterator" in c[0] and c[0].split("::")[-1] in ("try_fold", "fold", "try_for_each", "for_each")
+                                  for r in rows for c in r.calls):
+        # the prefixes are written inside a fold over `[name.len(), value.len()]`: decided by abstract interpretation (E8) instead
+        why = r16_4_fold_form(facts, wb)
+        if why is None:
+            rep.ok("R16.4", "write", "fold form: on every Ok path the writer sees VarInt::write(name.len()), VarInt::write(value.len()), write_all(name), "
+                   "write_all(value) in this order, the lengths come through VarInt::try_from (InvalidInput on failure), and the count is both prefix counts + name.len() + value.len() (E8)", wb.loc())
+            badw = None
+        else:
+            badw = list(badw) + ["fold form: " + why]
+    if badw is None:
+        pass
+    elif badw:
         rep.violation("R16.4", "write", "; ".join(sorted(set(badw))), wb.loc())
     elif full:
         rep.ok("R16.4", "write", "lengths via VarInt::try_from (InvalidInput on failure); prefix, prefix, name, value written with VarInt::write / write_all; count = both prefix counts + name.len() + value.len()", wb.loc())
@@ -246,6 +258,99 @@ def run(rep, facts):
         rep.ok("R16.5", "size_hint", "(0, Some(data.len() / 2))", sb.loc())
     else:
         rep.violation("R16.5", "size_hint", "size_hint is not (0, Some(data.len() / 2))", sb.loc())
+
+
+def r16_4_fold_form(facts, wb):
+    """nv::write with its two prefix writes inside a fold over an array literal, decided by E8 (regions.py): closures are looked into, the
+    fold is run element by element, VarInt::try_from / VarInt::write / write_all are contracts that fork into Ok / Err and log an event.
+    Returns None when R16.4 holds, else the reason."""
+    import regions as R
+    Lin = R.Lin
+
+    def c_try_from(it, st, args, dty):
+        x = args[0] if args and isinstance(args[0], Lin) else None
+        return [(('enum', 0, (('newtype', x) if x is not None else it.opaque(),)), [], "try_from is Ok"),
+                (('enum', 1, (('tferr',),)), [], "try_from is Err")]
+
+    def c_vwrite(it, st, args, dty):
+        v = args[0] if args else None
+        st["events"].append(("vwrite", v[1] if isinstance(v, tuple) and v[0] == 'newtype' else None))
+        n = it.new_len("prefix", st["ctx"])
+        return [(('enum', 0, (n,)), [], "VarInt::write is Ok"), (('enum', 1, (it.opaque(),)), [], "VarInt::write is Err")]
+
+    def c_write_all(it, st, args, dty):
+        st["events"].append(("write_all", it.slice_len(args[1], st["ctx"]) if len(args) > 1 else None))
+        return [(('enum', 0, (('tuple', []),)), [], "write_all is Ok"), (('enum', 1, (it.opaque(),)), [], "write_all is Err")]
+
+    def c_io_error_new(it, st, args, dty):
+        st["events"].append(("ioerr", args[0] if args else None, args[1] if len(args) > 1 else None))
+        return ('ioerr',)
+
+    def c_other_write(it, st, args, dty):
+        st["events"].append(("other-writer-call",))
+        return it.opaque()
+    contracts = {"std::io::Write::write_all": c_write_all, "protocol::varint::VarInt::write": c_vwrite, "std::io::Error::new": c_io_error_new}
+    for k in ("<protocol::varint::VarInt as std::convert::TryFrom>::try_from", "std::convert::TryFrom::try_from",
+              "<protocol::varint::VarInt as std::convert::TryFrom<usize>>::try_from"):
+        contracts[k] = c_try_from
+    for k in ("std::io::Write::write", "std::io::Write::write_vectored", "std::io::Write::flush", "std::io::Write::write_fmt", "std::io::Write::by_ref"):
+        contracts[k] = c_other_write
+    lens = {}
+
+    def init(ctx, heap, env):
+        it_ = holder["it"]
+        lens["name"], lens["value"] = it_.new_len("len(name)", ctx), it_.new_len("len(value)", ctx)
+        env[1] = ('tuple', [('slice', lens["name"]), ('slice', lens["value"])])
+        return {}
+    holder = {}
+    it = R.Interp(facts, [], contracts=contracts)
+    it.init_regions = init
+    holder["it"] = it
+    try:
+        ends = it.run(wb, self_value=None)
+    except RuntimeError as e:
+        return "not interpretable (%s)" % e
+    n_ok = 0
+    for e in ends:
+        ret = e.ret
+        if not (isinstance(ret, tuple) and ret[0] == 'enum'):
+            return "a path returns a value the interpretation cannot classify"
+        evs = [x for x in e.events if x[0] in ("vwrite", "write_all", "other-writer-call", "ioerr")]
+        if any(x[0] == "other-writer-call" for x in evs):
+            return "the writer is used through something other than VarInt::write / write_all"
+        if ret[1] == 1:
+            # failure: a rejected length must surface as InvalidInput built from the conversion error
+            pay = ret[2][0] if ret[2] else None
+            if pay == ('tferr',):
+                return "a length rejected by VarInt::try_from is returned without being wrapped in io::Error::new(InvalidInput, ..)"
+            continue
+        n_ok += 1
+        w = [x for x in evs if x[0] in ("vwrite", "write_all")]
+        want = [("vwrite", lens["name"]), ("vwrite", lens["value"]), ("write_all", lens["name"]), ("write_all", lens["value"])]
+        if len(w) != 4 or any(a[0] != b[0] or not isinstance(a[1], Lin) or not e.ctx.eq(a[1], b[1]) for a, b in zip(w, want)):
+            return "a successful path does not write prefix(name.len()), prefix(value.len()), name, value in this order (saw %s)" % [(x[0], str(x[1])) for x in w]
+        total = ret[2][0] if ret[2] else None
+        pre = [t_ for t_ in (total.t if isinstance(total, Lin) else {}) if str(t_).startswith("prefix")]
+        if not isinstance(total, Lin) or len(pre) != 2 or not e.ctx.eq(total, Lin.sym(pre[0]) + Lin.sym(pre[1]) + lens["name"] + lens["value"]):
+            return "the returned count is not both prefix counts + name.len() + value.len() (%s)" % total
+    # the error kind of the wrapped conversion failure: every io::Error::new in write and its closures is built with InvalidInput
+    n_new = 0
+    for b in facts.bodies:
+        if b.promoted or not (b is wb or b.path.startswith(wb.path + "::{closure")):
+            continue
+        rs = ir.Resolver(b)
+        for bi, blk in enumerate(b.blocks):
+            t = blk["t"]
+            if t["k"] == "call" and F.norm((t["func"].get("res") or t["func"]).get("path", "")) == "std::io::Error::new":
+                n_new += 1
+                kind = variant_of(rs.operand(t["args"][0], (bi, -1)))
+                if kind != 'InvalidInput':
+                    return "an oversized length is reported as %s" % kind
+    if not n_new:
+        return "no io::Error::new(InvalidInput, ..) wraps the conversion failure"
+    if not n_ok:
+        return "no successful path interpreted"
+    return None
 
 
 def run_prefix_codec(rep, facts):
